@@ -448,13 +448,17 @@ pub struct Burst {
     pub ndbs: usize,
     /// (first database, database switched to afterwards)
     pub sessions: Vec<(usize, Option<usize>)>,
+    /// while the sessions are open every database is snapshotted and the process is killed and started again:
+    /// nobody is connected to the new process, whatever the snapshot recorded
+    #[serde(default)]
+    pub restart_with_sessions_open: bool,
 }
 
 fn gen_burst(rng: &mut Rng) -> Burst {
     let ndbs = rng.range(1, 2) as usize;
     let n = rng.range(2, 4) as usize;
     let sessions = (0..n).map(|_| (rng.below(ndbs as u64) as usize, if rng.chance(1, 3) { Some(rng.below(ndbs as u64) as usize) } else { None })).collect();
-    Burst { ndbs, sessions }
+    Burst { ndbs, sessions, restart_with_sessions_open: rng.chance(1, 4) }
 }
 
 fn execute_burst(prog: Burst) -> Outcome {
@@ -522,6 +526,66 @@ fn execute_burst(prog: Burst) -> Outcome {
             ));
             return out;
         }
+    }
+    if prog.restart_with_sessions_open {
+        let mut admin = Session::admin(&dbs);
+        for i in 0..prog.ndbs {
+            admin.exec(&format!("snapshot false {}", DBN[i]));
+        }
+        if !w.declutter_tick(0, 10_000) {
+            return out;
+        }
+        w.kill(0);
+        nundb_verif_rt::kernel::with(|k| k.fault("kill"));
+        // (the sessions of the old process are gone with it)
+        for s in sessions.into_iter() {
+            std::mem::drop(s);
+        }
+        drop(admin);
+        observers.clear();
+        w.boot(0, "");
+        if !w.wait_primary(0, 8_000) {
+            out.violations.push(Violation::new("restart-failed", "burst".to_string(), "the node did not come back after the restart".to_string()));
+            return out;
+        }
+        let dbs = match w.dbs(0) {
+            Some(d) => d,
+            None => return out,
+        };
+        for i in 0..prog.ndbs {
+            let mut o = Session::new(&dbs);
+            if o.exec(&format!("use-db {} tok{}", DBN[i], i)).resp.is_err() {
+                out.violations.push(Violation::new("restart-failed", "burst:use-db".to_string(), format!("database {} cannot be selected after the restart", DBN[i])));
+                return out;
+            }
+            let got = read(&mut o);
+            out.checks += 1;
+            if got != Some(1) {
+                out.violations.push(Violation::new(
+                    "wrong-count",
+                    format!("after-restart:{}", shape),
+                    format!("database {}: the process was restarted (snapshot taken while {} sessions had it selected); the first session of the new process reads $connections = {:?}, expected 1", DBN[i], prog.sessions.iter().filter(|(f, sw)| sw.unwrap_or(*f) == i).count() + 1, got),
+                ));
+                return out;
+            }
+            let mut second = Session::new(&dbs);
+            second.exec(&format!("use-db {} tok{}", DBN[i], i));
+            let two = read(&mut o);
+            second.disconnect();
+            let one = read(&mut o);
+            out.checks += 1;
+            if (two, one) != (Some(2), Some(1)) {
+                out.violations.push(Violation::new(
+                    "wrong-count",
+                    format!("after-restart:{}:second-session", shape),
+                    format!("database {} after the restart: a second session came and went, $connections read {:?} then {:?}, expected 2 then 1", DBN[i], two, one),
+                ));
+                return out;
+            }
+            observers.push(o);
+        }
+        check_panics(&mut out);
+        return out;
     }
     // phase 2: everybody leaves at the same instant
     let mut handles = Vec::new();
